@@ -13,7 +13,7 @@ func init() {
 		Run: runC01,
 		Explanation: "Decides the local facts whose conjunction is the textbook argument for at-least-once delivery through Router stages connected by GoChannel topics (the composition itself is a pen-and-paper argument in DESIGN §3, not mechanised): a stage Acks only behind chain-error==nil and publish-error==nil, every failure exit (handler error, publish error, recovered panic of handler or publisher) Nacks, outputs of a failed attempt are not published (the C02 obligations, re-decided here); " +
 			"the broker re-sends a fresh copy after every Nack and stops only after an Ack or when the subscription is closed, and owns the subscription until settlement (C04.O2, C05.O1); nothing is invented: every value sent to a subscriber is Copy() of the deliver function's message, and every message handed to the deliver function is a copy of a message given to Publish or an element of the persisted log, which is only ever extended with such copies. " +
-			"Not decided: that redelivery eventually happens (scheduler), third-party Pub/Subs, the fault-free suffix assumption.",
+			"The obligations of the Retry middleware (C12) and of the simple middlewares (C19) are decided here too, because a library middleware that turns a failed attempt into a success or drops outputs makes a stage Ack a message that never reached the next topic. Not decided: that redelivery eventually happens (scheduler), third-party Pub/Subs, the fault-free suffix assumption.",
 		Assumptions: commonAssumptions,
 	})
 }
@@ -38,6 +38,9 @@ func runC01(c *Check) {
 	c07Decorator(c, P+".S")
 	// every hop hands a Copy() to the next stage: it must be a complete message (own, non-nil metadata; same UUID, payload, entries)
 	c16Copy(c, P+".O4")
+	// the library's own middlewares sit inside the stages: none of them turns a failure into a success or drops outputs
+	c12All(c, P+".M12")
+	c19All(c, P+".M19")
 	// O5 NO-INVENTION: provenance of every message handed to the deliver function
 	var fanMsg *ssa.Parameter
 	if ps := ParamsOfType(g.Fan, tMessagePtr); len(ps) == 1 {
